@@ -41,7 +41,7 @@ def gen_cb(rng: Any, ids: list[int], depth: int, allow_service: bool, p_raise: f
     routes = ["direct", "direct", "shortcut", "resource", "ctxteardown"] + (["service"] if allow_service and depth == 0 else [])
     route = rng.choice(routes)
     kind = rng.choice(["sync", "async", "async", "sync_awaitable"])
-    form = rng.choice(["function", "function", "function", "partial", "object", "unhashable_object", "misleading_signature", "equal_object", "equal_object", "opaque_object", "method_of_temporary"])  # how the callable is given
+    form = rng.choice(["function", "function", "function", "partial", "object", "unhashable_object", "misleading_signature", "equal_object", "equal_object", "opaque_object", "method_of_temporary", "falsy_object"])  # how the callable is given
     if route == "ctxteardown":
         kind = "async"
     cb: dict[str, Any] = {"id": cid, "route": route, "kind": kind, "pass_exception": False, "steps": [], "raises": None, "children": [], "form": form}
@@ -333,7 +333,7 @@ class Run:
             import gc
 
             gc.collect()
-        elif form in ("object", "unhashable_object", "equal_object", "opaque_object"):
+        elif form in ("object", "unhashable_object", "equal_object", "opaque_object", "falsy_object"):
             inner = probe
             # "unhashable": a callable object with __eq__ but no __hash__ (what a plain @dataclass with __call__ is);
             # "equal": callable objects with value semantics - every one of them compares (and hashes) equal to every other one,
@@ -341,6 +341,9 @@ class Run:
             extra: dict[str, Any] = {"__eq__": lambda s, o: s is o, "__hash__": None} if form == "unhashable_object" else {}
             if form == "equal_object":
                 extra = {"is_equal_probe": True, "__eq__": lambda s, o: getattr(o, "is_equal_probe", False), "__hash__": lambda s: 3}
+            if form == "falsy_object":
+                # a callable object whose truth value is False (a clean-up list that is still empty, a flag object): a callback
+                extra = {"__len__": lambda s: 0}
             if form == "opaque_object":
                 # a callable object that cannot be printed (its repr()/str() needs a connection that an earlier-run callback has
                 # closed, say): it is a teardown callback all the same
@@ -877,7 +880,9 @@ def features(run: Run) -> dict[str, int]:
             if byid[cid]["form"] == "misleading_signature":
                 inc("callback_form_misleading_signature")
             else:
-                inc(f"callback_form_{byid[cid]['form'].replace('unhashable_', '').replace('equal_', '').replace('opaque_', '')}")
+                inc(f"callback_form_{byid[cid]['form'].replace('unhashable_', '').replace('equal_', '').replace('opaque_', '').replace('falsy_', '')}")
+                if byid[cid]["form"] == "falsy_object":
+                    inc("callback_form_falsy_callable_object")
                 if byid[cid]["form"] == "method_of_temporary":
                     inc("callback_form_bound_method_of_an_otherwise_unreferenced_object")
                 if byid[cid]["form"] == "opaque_object":
